@@ -7,7 +7,7 @@ sys.path.insert(0,'/verif')
 import run as R
 t0=time.time()
 ir = IR(sys.argv[1])
-eng = Engine(ir, solver_timeout_ms=int(os.environ.get('ST','15000')))
+eng = Engine(ir, unwind=70, solver_timeout_ms=int(os.environ.get("ST","15000")))
 intrinsics.install(eng); models.install(eng)
 eng.params = json.loads(sys.argv[3]) if len(sys.argv)>3 else {}
 eng.arith = os.environ.get('ARITH','bv')
